@@ -11,7 +11,7 @@ From Coq Require Import List NArith Bool.
 From V.C10 Require Import Model.
 From V.Mgr Require Import DialShape DialShapeProofs Model Caps Ledger LedgerInv.
 From V.Tcp Require Model Proofs Theorems Variants VariantTheorems Once Settle.
-From V.C05 Require TcpCompose.
+From V.C05 Require TcpCompose TrCompose.
 Import ListNotations.
 Open Scope N_scope.
 
@@ -1102,3 +1102,157 @@ Example C05_quic_history :
    [Tcp.Model.OEv (Tcp.Model.TEstablished 0 1 false)]; [Tcp.Model.OId 1]; [Tcp.Model.ORet true];
    [Tcp.Model.OEv (Tcp.Model.TOpenFailure 1)]].
 Proof. exact Tcp.Once.quic_history_ok. Qed.
+
+
+(* ---- manager + ANY ONE installed socket transport (coq/C05/TrCompose.v) ----
+   The composition of coq/C05/TcpCompose.v does not depend on the installed transport being TCP: the
+   same development with the transport tag abstracted (Tg), for configurations in which Tg is the one
+   installed transport — in particular WebSocket alone. What the bookkeeping model inside the composed
+   system stands for is said by C05_sysT_calls_are_real / C05_sysT_transport_side_is_its_model: the
+   model of that transport (coq/Tcp/Variants.v) run on the real trait calls with the canonical
+   addresses. Two transports installed at once are not covered (the C05_sys_ and C05_sysT_ theorems are
+   single-transport; for TCP + WebSocket together `feas` stays an assumption about the pair, although
+   each transport model satisfies its own contract, the C05_tr_ theorems). *)
+
+(* composition with ANY ONE installed transport (tag Tg: TCP or WebSocket): the transport contract is no assumption: every history of outside inputs makes the manager see an event history that satisfies `feas`, and the manager part of the composed run is the manager model run on that history *)
+Theorem C05_sysT_feasible :
+  forall (Tg : tr) (L : limits),
+  (forall t : tr, installed L t = true <-> t = Tg) ->
+  forall xs : list TrCompose.xev,
+  TrCompose.xfeasible Tg L TrCompose.sys0 xs ->
+  feasible L init g0 (TrCompose.sys_trace Tg L TrCompose.sys0 xs) /\
+  (TrCompose.s_m (TrCompose.sys_run Tg L TrCompose.sys0 xs), TrCompose.s_g (TrCompose.sys_run Tg L TrCompose.sys0 xs)) =
+  lrun L init g0 (TrCompose.sys_trace Tg L TrCompose.sys0 xs).
+Proof. exact TrCompose.sys_feasible0. Qed.
+Print Assumptions C05_sysT_feasible.
+
+(* ... one input at a time, from any state the coupling invariant holds in *)
+Theorem C05_sysT_step :
+  forall (Tg : tr) (L : limits),
+  (forall t : tr, installed L t = true <-> t = Tg) ->
+  forall (st : TrCompose.sys) (x : TrCompose.xev),
+  TrCompose.Inv Tg L st ->
+  TrCompose.xok L st x ->
+  feasible L (TrCompose.s_m st) (TrCompose.s_g st) (TrCompose.sys_evs Tg L st x) /\ TrCompose.Inv Tg L (TrCompose.sys_step Tg L st x).
+Proof. exact TrCompose.sys_step_inv. Qed.
+Print Assumptions C05_sysT_step.
+
+(* the ledger theorems for manager + the one installed transport, without assuming anything about the transport *)
+Theorem C05_sysT_at_most_one_outcome :
+  forall (Tg : tr) (L : limits),
+  (forall t : tr, installed L t = true <-> t = Tg) ->
+  forall xs : list TrCompose.xev,
+  TrCompose.xfeasible Tg L TrCompose.sys0 xs -> NoDup (terminals L init (TrCompose.sys_trace Tg L TrCompose.sys0 xs)).
+Proof. exact TrCompose.sys_at_most_one_outcome. Qed.
+Print Assumptions C05_sysT_at_most_one_outcome.
+
+(* ... no silence *)
+Theorem C05_sysT_no_silence :
+  forall (Tg : tr) (L : limits),
+  (forall t : tr, installed L t = true <-> t = Tg) ->
+  forall xs : list TrCompose.xev,
+  TrCompose.xfeasible Tg L TrCompose.sys0 xs ->
+  let st := TrCompose.sys_run Tg L TrCompose.sys0 xs in
+  quiescent (TrCompose.s_m st) (TrCompose.s_g st) ->
+  forall (c : N) (p : peer),
+  lookup c (g_att (TrCompose.s_g st)) = Some p ->
+  In c (g_done (TrCompose.s_g st)) \/ In c (g_super (TrCompose.s_g st)) /\ In p (g_rep (TrCompose.s_g st)) \/ In c (g_limrej (TrCompose.s_g st)).
+Proof. exact TrCompose.sys_no_silence. Qed.
+Print Assumptions C05_sysT_no_silence.
+
+(* ... no wedged peer *)
+Theorem C05_sysT_no_wedge :
+  forall (Tg : tr) (L : limits),
+  (forall t : tr, installed L t = true <-> t = Tg) ->
+  forall xs : list TrCompose.xev,
+  TrCompose.xfeasible Tg L TrCompose.sys0 xs ->
+  let st := TrCompose.sys_run Tg L TrCompose.sys0 xs in
+  quiescent (TrCompose.s_m st) (TrCompose.s_g st) -> forall p : peer, settled (state_of (TrCompose.s_m st) p).
+Proof. exact TrCompose.sys_no_wedge. Qed.
+Print Assumptions C05_sysT_no_wedge.
+
+(* ... no panic site is reached *)
+Theorem C05_sysT_no_stuck :
+  forall (Tg : tr) (L : limits),
+  (forall t : tr, installed L t = true <-> t = Tg) ->
+  forall (xs : list TrCompose.xev) (x : TrCompose.xev) (s : N),
+  TrCompose.xfeasible Tg L TrCompose.sys0 (xs ++ [x]) ->
+  forall (e : ev) (m : mgr) (g : ghost) (es2 : list ev),
+  TrCompose.sys_evs Tg L (TrCompose.sys_run Tg L TrCompose.sys0 xs) x = e :: es2 ->
+  (m, g) = (TrCompose.s_m (TrCompose.sys_run Tg L TrCompose.sys0 xs), TrCompose.s_g (TrCompose.sys_run Tg L TrCompose.sys0 xs)) ->
+  ~ In (Stuck s) (snd (step L m e)).
+Proof. exact TrCompose.sys_no_stuck. Qed.
+Print Assumptions C05_sysT_no_stuck.
+
+(* quiescence, read off the transport model's own ledger *)
+Theorem C05_sysT_quiescent :
+  forall (Tg : tr) (L : limits),
+  (forall t : tr, installed L t = true <-> t = Tg) ->
+  forall xs : list TrCompose.xev,
+  TrCompose.xfeasible Tg L TrCompose.sys0 xs ->
+  let st := TrCompose.sys_run Tg L TrCompose.sys0 xs in
+  quiescent (TrCompose.s_m st) (TrCompose.s_g st) <->
+  TrCompose.TM.g_open (TrCompose.s_tg st) = [] /\ TrCompose.TM.g_neg (TrCompose.s_tg st) = [] /\ accepting (TrCompose.s_m st) = [].
+Proof. exact TrCompose.sys_quiescent0. Qed.
+Print Assumptions C05_sysT_quiescent.
+
+(* whatever the manager waits for is backed by a pending un-cancelled future of the transport model *)
+Theorem C05_sysT_owed_is_pending :
+  forall (Tg : tr) (L : limits),
+  (forall t : tr, installed L t = true <-> t = Tg) ->
+  forall (xs : list TrCompose.xev) (c : conn),
+  TrCompose.xfeasible Tg L TrCompose.sys0 xs ->
+  let st := TrCompose.sys_run Tg L TrCompose.sys0 xs in
+  owed (TrCompose.s_g st) c ->
+  (exists (f : N) (rem : list (N * TrCompose.TM.expect)),
+     TrCompose.TM.lookup f (TrCompose.TM.praw (TrCompose.s_t st)) = Some c /\
+     TrCompose.TM.lookup f (TrCompose.TM.attempts (TrCompose.s_t st)) = Some rem /\ ~ In f (TrCompose.TM.aborted (TrCompose.s_t st))) \/
+  (exists (f : N) (k : TrCompose.TM.kind),
+     TrCompose.TM.lookup f (TrCompose.TM.pconn (TrCompose.s_t st)) = Some (c, k) /\ TrCompose.TM.is_inb k = false).
+Proof. exact TrCompose.sys_owed_is_pending0. Qed.
+Print Assumptions C05_sysT_owed_is_pending.
+
+(* ... and there is an allowed network / runtime input whose handling hands the manager an answer for it *)
+Theorem C05_sysT_progress :
+  forall (Tg : tr) (L : limits),
+  (forall t : tr, installed L t = true <-> t = Tg) ->
+  forall (xs : list TrCompose.xev) (c : conn),
+  TrCompose.xfeasible Tg L TrCompose.sys0 xs ->
+  let st := TrCompose.sys_run Tg L TrCompose.sys0 xs in
+  owed (TrCompose.s_g st) c ->
+  exists n : TrCompose.TM.ev,
+    TrCompose.TM.polls n = true /\
+    TrCompose.xfeasible Tg L TrCompose.sys0 (xs ++ [TrCompose.XNet n]) /\
+    (exists e : ev, In e (TrCompose.sys_evs Tg L st (TrCompose.XNet n)) /\ TrCompose.answers c e).
+Proof. exact TrCompose.sys_progress0. Qed.
+Print Assumptions C05_sysT_progress.
+
+(* what the bookkeeping model inside the composed system stands for: the model events the composition executes are exactly the images, under the front end of the transport of that tag (coq/Tcp/Variants.v ev_of; TCP -> TcpTransport, WS -> WebSocketTransport), of the REAL trait calls with the canonical addresses of the dialled peer *)
+Theorem C05_sysT_calls_are_real :
+  forall (Tg : tr) (p : peer) (k : nat) (o : out),
+  Tg = TCP \/ Tg = WS -> TrCompose.fwd Tg p k o = map (TrCompose.TV.ev_of (TrCompose.transport_of Tg)) (TrCompose.fwdX Tg p k o).
+Proof. exact TrCompose.fwd_real. Qed.
+Print Assumptions C05_sysT_calls_are_real.
+
+(* ... so when the manager handles an event the transport side of the composed system is the model of that transport run on the real trait calls *)
+Theorem C05_sysT_transport_side_is_its_model :
+  forall (Tg : tr) (L : limits) (k : nat) (st : TrCompose.sys) (e : ev),
+  Tg = TCP \/ Tg = WS ->
+  (TrCompose.s_t (TrCompose.deliver Tg L k st e), TrCompose.s_tg (TrCompose.deliver Tg L k st e)) =
+  TrCompose.xrun (TrCompose.transport_of Tg) (TrCompose.s_t st) (TrCompose.s_tg st) (TrCompose.real_calls Tg L k st e).
+Proof. exact TrCompose.deliver_real. Qed.
+Print Assumptions C05_sysT_transport_side_is_its_model.
+
+(* non-vacuity: WebSocket alone installed: add a /ws address, dial by peer (first address answered by another identity, second by the peer: ConnectionOpened, cancel + negotiate, ConnectionEstablished, accepted), an inbound socket, a dial_address through the handle whose attempt fails; nothing owed at the end *)
+Example C05_sysws_history :
+  TrCompose.xfeasible WS TrCompose.L_ws TrCompose.sys0 TrCompose.history_ws /\
+  TrCompose.sys_trace WS TrCompose.L_ws TrCompose.sys0 TrCompose.history_ws =
+  [CmdAddAddr 5 WS; CmdDialPeer 5 [WS] []; TrOpened 0 WS false; TrEstablished 5 0 WS false false; AcceptDone 0 true; AllocConn;
+   TrPendingInbound 1 WS; TrEstablished 7 1 WS true false; AcceptDone 1 true; HDialAddr (canon 6 WS) false; TrDialFailure 2 WS 6] /\
+  snd (run TrCompose.L_ws init (TrCompose.sys_trace WS TrCompose.L_ws TrCompose.sys0 TrCompose.history_ws)) =
+  [[]; [CallOpen 0 WS; Ret RET_OK]; [CallCancel 0 WS; CallNegotiate 0 WS]; [CallAccept 0 WS]; [EvEstablished 5 0]; [
+   Ret (RET_ALLOC + 1)]; [CallAcceptPending 1 WS]; [CallAccept 1 WS]; [EvEstablished 7 1]; [Ret RET_OK; CallDial 2 WS; Logged RET_OK];
+   [ProtoDialFailure 6; EvDialFailure 2 6]] /\
+  quiescent (TrCompose.s_m (TrCompose.sys_run WS TrCompose.L_ws TrCompose.sys0 TrCompose.history_ws))
+    (TrCompose.s_g (TrCompose.sys_run WS TrCompose.L_ws TrCompose.sys0 TrCompose.history_ws)).
+Proof. exact TrCompose.history_ws_ok. Qed.
